@@ -70,6 +70,10 @@ def follow_alias_check(ctx, n):
         if rng.chance(1, 3) and len(links) >= 2:
             mk(links[-1][0])                                                   # a chain: link to a link (absolute)
         opts = ["-L"]
+        # -L together with -S: directory links are followed, links to FILES are listed under their own name
+        both = rng.chance(1, 3)
+        if both:
+            opts.append("-S")
         ml = rng.chance(1, 2)
         if ml:
             opts.append("--match-links")
@@ -96,9 +100,18 @@ def follow_alias_check(ctx, n):
         _, groups = treegen.parse_json_report(out.decode("utf-8"))
         listed = [p.decode("utf-8", "surrogateescape") for g in groups for p in g["files"]]
         payload["reported"] = [[p.decode("utf-8", "surrogateescape") for p in g["files"]] for g in groups]
-        bad_alias = [p for p in listed if os.path.realpath(p) != p]
+        def canon_entry(p):
+            # a listed link keeps its own name, the directory part is canonical
+            return os.path.join(os.path.realpath(os.path.dirname(p)), os.path.basename(p)) if os.path.islink(p) and both else os.path.realpath(p)
+        bad_alias = [p for p in listed if canon_entry(p) != p]
         twice = sorted({p for p in listed if listed.count(p) > 1})
-        same_real = sorted({p for p in listed if [os.path.realpath(q) for q in listed].count(os.path.realpath(p)) > 1})
+        same_real = sorted({p for p in listed if [canon_entry(q) for q in listed].count(canon_entry(p)) > 1})
+        if both:
+            # every link (whatever its spelling, chains included) that leads to a regular file is an entry of its own
+            for name, _ in links:
+                if os.path.isfile(name):
+                    files[name] = files[os.path.realpath(name)]
+            payload["files"] = sorted(files)
         if bad_alias or twice or same_real:
             ctx.violation({"kind": "file_listed_under_alias_paths", "dimension": "follow_alias"},
                           "with --follow-links one file is listed more than once / under a path that goes through a link: %s" % (bad_alias or twice or same_real)[:4],
